@@ -324,7 +324,7 @@ def aclient(frames: int, K: int, connect_delay: int = 1, prefix: list = (), excl
     return scenario
 
 
-def tls(K: int, kind: str = "recv", prefix: list = ()):
+def tls(K: int, kind: str = "recv", prefix: list = (), rsize: int = 4):
     """Two REAL AsyncTLSStreamTransport objects (real ssl.SSLObject / MemoryBIO, certificate from benchmark_server/servers/certs)
     wrapped around an in-memory duplex pipe.  The server writes a 6-byte stream in solver-chosen pieces while the client's pending
     TLS receives are cancelled at solver-chosen moments; later receives must deliver exactly the rest of the stream.
@@ -360,11 +360,11 @@ def tls(K: int, kind: str = "recv", prefix: list = ()):
 
             async def recv_once():
                 if kind == "recv_into":
-                    buf = S.real_bytearray(4)  # OpenSSL (C code) writes into it
+                    buf = S.real_bytearray(rsize)  # OpenSSL (C code) writes into it
                     n = await client.recv_into(buf)
                     st["got"].append(bytes(buf[:n]))
                 else:
-                    st["got"].append(await client.recv(4))
+                    st["got"].append(await client.recv(rsize))
 
             def harvest():
                 t = st["task"]
@@ -422,6 +422,93 @@ def tls(K: int, kind: str = "recv", prefix: list = ()):
     return scenario
 
 
+def sync_timeout(kind: str, path: str, T: int, rsize: int = 1):
+    """'The same holds for blocking receives that end with TimeoutError': the real blocking receive layers
+    (kind = endpoint: StreamEndpoint, receiver: StreamReceiverEndpoint, client: TCPNetworkClient.recv_packet,
+    client-iter: TCPNetworkClient.iter_received_packets) over SocketStreamTransport + a scripted socket object.  The stream
+    'AB\\nC\\n' is handed out in pieces of <= rsize bytes with solver-chosen would-block results; the selector lets a solver-chosen
+    time pass, so that recv_packet(timeout=T) may end with TimeoutError at any point inside a frame.  After up to 3 such calls the
+    remaining packets are read without a timeout.  Asserted: the packets delivered over all calls are exactly AB, C (in order,
+    once) - a receive that timed out lost nothing of what it had already read."""
+    import easynetwork.clients.tcp as tcp_mod
+    from easynetwork.lowlevel.api_sync.endpoints.stream import StreamEndpoint, StreamReceiverEndpoint
+    from easynetwork.lowlevel.api_sync.transports.socket import SocketStreamTransport
+    from easynetwork.protocol import BufferedStreamProtocol, StreamProtocol
+
+    from . import streamlib as L
+    from .syncenv import INF, Env, FakeSocket, Fuel, StubSelector, patched_clock
+
+    def scenario(S):
+        stream = b"AB\nC\n"
+        expect = [b"AB", b"C"]
+        env = Env(S, fuel=80, max_eagain=2, cap=rsize, elapsed_max=T + 1)
+        sock = FakeSocket(env, incoming=stream, eof_after=False)
+        ser = L.RawSep(b"\n", limit=8)
+        proto = BufferedStreamProtocol(ser) if path == "buf" else StreamProtocol(ser)
+        saved = tcp_mod.SocketStreamTransport
+        got = []
+        timeouts = 0
+        mid_frame = 0
+        problem = None
+        try:
+            if kind in ("client", "client-iter"):
+                tcp_mod.SocketStreamTransport = lambda s, retry_interval: saved(s, retry_interval, selector_factory=lambda: StubSelector(env))
+                obj = tcp_mod.TCPNetworkClient(sock, proto, retry_interval=1, max_recv_size=rsize)
+            else:
+                tr = SocketStreamTransport(sock, 1, selector_factory=lambda: StubSelector(env))
+                obj = (StreamEndpoint if kind == "endpoint" else StreamReceiverEndpoint)(tr, proto, max_recv_size=rsize)
+
+            def one(timeout):
+                if kind == "client-iter":
+                    n = 0
+                    for pkt in obj.iter_received_packets(timeout=timeout):
+                        got.append(pkt)
+                        n += 1
+                        if len(got) >= len(expect):
+                            break
+                    if n == 0 or len(got) < len(expect):
+                        raise TimeoutError  # the iterator swallows the TimeoutError and stops
+                else:
+                    got.append(obj.recv_packet(timeout=timeout))
+
+            with patched_clock(env):
+                try:
+                    for _ in range(3):
+                        if len(got) >= len(expect):
+                            break
+                        before = sock.rpos
+                        try:
+                            one(T)
+                        except TimeoutError:
+                            timeouts += 1
+                            if sock.rpos > 0 and sock.rpos not in (3, 5):
+                                mid_frame += 1
+                    env.eagain_left = 0
+                    env.spurious_left = 0
+                    while len(got) < len(expect) and problem is None:
+                        one(None)
+                except Fuel:
+                    problem = "receive spins / never returns although the rest of the stream is available"
+                except Exception as e:  # noqa: BLE001
+                    problem = "raised " + repr(e)
+        finally:
+            tcp_mod.SocketStreamTransport = saved
+            sock.really_close()
+        ok = problem is None and len(got) == len(expect)
+        if ok:
+            for g, e in zip(got, expect):
+                if not (g == e):
+                    ok = False
+        tags = []
+        if timeouts:
+            tags.append("cancel-on-pending-receive")
+        if mid_frame:
+            tags.append("timeout-inside-a-frame")
+        return Outcome(ok=ok, skeleton=(len(got), timeouts, problem is None), tags=tuple(tags), detail={"got": got, "expected": expect, "timeouts": timeouts, "timeouts_inside_a_frame": mid_frame, "problem": problem})
+
+    return scenario
+
+
 async def aclose_quiet(t):
     from easynetwork.lowlevel.api_async.transports.utils import aclose_forcefully
 
@@ -459,10 +546,18 @@ def shards(tier: str):
     for kind in ("recv", "recv_into"):
         for pre in range(3):
             out.append({"name": f"tls/{kind}/K{4 if quick else 6}/pre{pre}", "scenario": "props.c10:tls", "params": dict(K=4 if quick else 6, kind=kind, prefix=[pre]), "budget": B, "cost": 400, "per_path_timeout": 60})
+            if pre == 1:  # receive size smaller than a TLS record: decrypted bytes stay in stock inside the SSL object
+                Kr = 7 if quick else 9  # the first record travels through the pipe during the fixed prefix (write, 3 iterations)
+                out.append({"name": f"tls/{kind}/r2/K{Kr}/pre1000", "scenario": "props.c10:tls", "params": dict(K=Kr, kind=kind, prefix=[1, 0, 0, 0], rsize=2), "budget": B, "cost": 400, "per_path_timeout": 60})
     # "... or a request handler's yielded timeout": the stream server's request receivers (scenario shared with C15)
     for path in ("copy", "buf"):
         for pre in range(3):
             out.append({"name": f"server/ginf-t0/{path}/pre{pre}", "scenario": "props.c15:serve", "params": dict(frames=3, K=4 if quick else 6, path=path, per_gen=0, timeout=0, prefix=[pre]), "budget": B, "cost": 300, "per_path_timeout": 30})
+    # "The same holds for blocking receives that end with TimeoutError"
+    for kind in ("endpoint", "receiver", "client", "client-iter"):
+        for path in ("copy", "buf"):
+            for T in (0, 1) if quick else (0, 1, 2):
+                out.append({"name": f"sync-timeout/{kind}/{path}/T{T}", "scenario": "props.c10:sync_timeout", "params": dict(kind=kind, path=path, T=T, rsize=1 if quick else 2), "budget": B, "cost": 60 * (T + 1), "per_path_timeout": 30})
     for path in ("copy", "buf"):
         for via in ("cancel", "scope"):
             for pre in itertools.product(range(3), repeat=1):
